@@ -1,0 +1,43 @@
+//go:build verif
+
+package p9p
+
+// Observation hooks for the runtime monitors in /verif. Compiled only with the
+// `verif` build tag; nothing here changes the behaviour of the package.
+
+// VerifFid is a snapshot of one entry of an SFileSys session's fid table.
+type VerifFid struct {
+	Fid    Fid
+	Ent    Dirent // nil for a reserved (not yet bound) or already released fid
+	File   File   // non-nil iff the fid is open
+	Mode   Flag
+	Locked bool // the entry's mutex could not be acquired: the other fields are not read
+}
+
+// VerifFidTable returns the fid table of a session created by SFileSys. ok is
+// false if s is not such a session. Fields are read only while the entry's own
+// mutex is held (acquired with TryLock, so the call never blocks).
+func VerifFidTable(s Session) (table []VerifFid, ok bool) {
+	sess, ok := s.(*session)
+	if !ok {
+		return nil, false
+	}
+	sess.refs.Range(func(k, v interface{}) bool {
+		fid, _ := k.(Fid)
+		ref, _ := v.(*SFid)
+		e := VerifFid{Fid: fid}
+		if ref == nil {
+			table = append(table, e)
+			return true
+		}
+		if ref.TryLock() {
+			e.Ent, e.File, e.Mode = ref.Ent, ref.File, ref.Mode
+			ref.Unlock()
+		} else {
+			e.Locked = true
+		}
+		table = append(table, e)
+		return true
+	})
+	return table, true
+}
